@@ -280,6 +280,9 @@ class C10(Check):
             csv = ba.assembly_stats.chromosome_name_csv(asm)
             lines = csv.splitlines() if csv else []
             rows12 = [s for s in sc if s.rank in (1, 2)]
+            if rows12 and not getattr(asm, "curated", True):
+                # the command line writes the chromosome list only for assemblies flagged as curated
+                errs.append(("csv-not-written-for-assembly", f"{key!r}: {len(rows12)} chromosome/unloc scaffolds but the assembly is not flagged curated"))
             if len(lines) != len(rows12):
                 errs.append(("csv-line-count", f"{key!r}: {len(lines)} lines for {len(rows12)} chromosome/unloc scaffolds"))
             else:
